@@ -57,28 +57,38 @@ def cfg_text(f, dev, what, maxops=None):
 
 
 def families(tier):
-    base = [k for k in ALL_KINDS if k != "tappend"]
-    one = list(range(1, 13))
+    """Bounds of the model runs.  A history = one of the sequential prefixes (<= 5 calls by writer "m", see
+    MemWal!AllPrefixes) followed by maxops calls of the concurrent writers through possibly stale handles."""
+    base = [k for k in ALL_KINDS if k not in ("tappend", "checkout")]
+    one = list(range(1, 13)) + [16, 17, 18]
+    two = [2, 4, 5, 7, 9, 13, 14, 15]
     if tier == "quick":
         return [
-            # 2 writers, 1 region, generations 0..2: every history of 3 operations (stale handles by commits of the
-            # other writer and by checkout of any earlier version) after each of 12 sequential prefixes (<= 5 ops)
-            dict(name="conc", regions=["A"], maxgen=2, handles=["a", "b"], maxops=3, maxhi=2, opkinds=base,
-                 prefixes=one, cap=600, mc=True),
-            # calls the API must reject (wrong state, missing generation, wrong / missing expected owner) and plain appends
-            dict(name="invalid", regions=["A"], maxgen=1, handles=["a", "b"], maxops=2, maxhi=1,
-                 opkinds=ALL_KINDS + ["invalid"], prefixes=[1, 2, 4, 5, 7, 9], cap=200, mc=True),
+            # 2 writers, 1 region, generations 0..2: two calls, handles may first be pinned at any earlier version
+            # (also plain table appends)
+            dict(name="pin2", regions=["A"], maxgen=2, handles=["a", "b"], maxops=2, maxhi=2,
+                 opkinds=base + ["checkout", "tappend"], prefixes=one, cap=450, mc=True),
+            # three calls (staleness by the other writer's commits) after the prefixes that end flushed / merged / trimmed
+            dict(name="conc3", regions=["A"], maxgen=2, handles=["a", "b"], maxops=3, maxhi=2, opkinds=base,
+                 prefixes=[4, 5, 6, 9, 10, 11, 17], cap=450, mc=True),
+            # every call the API must reject (wrong state, missing generation, wrong / missing expected owner)
+            dict(name="invalid", regions=["A"], maxgen=1, handles=["a"], maxops=1, maxhi=1,
+                 opkinds=base + ["invalid"], prefixes=[1, 2, 4, 5, 7, 9], cap=150, mc=True),
         ]
     return [
-        dict(name="conc", regions=["A"], maxgen=2, handles=["a", "b"], maxops=4, maxhi=2, opkinds=base,
-             prefixes=one, cap=6000, mc=True),
+        dict(name="pin3", regions=["A"], maxgen=2, handles=["a", "b"], maxops=3, maxhi=2, opkinds=base + ["checkout"],
+             prefixes=one, cap=4000, mc=True),
+        dict(name="conc4", regions=["A"], maxgen=2, handles=["a", "b"], maxops=4, maxhi=2, opkinds=base + ["tappend"],
+             prefixes=one, cap=4000, mc=True),
         dict(name="three", regions=["A", "B"], maxgen=1, handles=["a", "b", "c"], maxops=3, maxhi=1, opkinds=base,
-             prefixes=[2, 4, 5, 7, 9, 13, 14, 15], cap=4000, mc=True),
-        dict(name="invalid", regions=["A"], maxgen=1, handles=["a", "b"], maxops=3, maxhi=1,
+             prefixes=two, cap=3000, mc=True),
+        dict(name="three-pin", regions=["A", "B"], maxgen=1, handles=["a", "b", "c"], maxops=2, maxhi=1,
+             opkinds=base + ["checkout"], prefixes=two, cap=1500, mc=True),
+        dict(name="invalid", regions=["A"], maxgen=1, handles=["a", "b"], maxops=2, maxhi=1,
              opkinds=ALL_KINDS + ["invalid"], prefixes=[1, 2, 4, 5, 7, 9], cap=1500, mc=True),
         # deeper random walks of the as-built model (no exhaustive claim)
         dict(name="deep", regions=["A", "B"], maxgen=2, handles=["a", "b", "c"], maxops=7, maxhi=2, opkinds=ALL_KINDS,
-             prefixes=list(range(1, 16)), cap=1500, mc=False, simulate="num=3000"),
+             prefixes=list(range(1, 19)), cap=1500, mc=False, simulate="num=3000"),
     ]
 
 
